@@ -29,6 +29,8 @@ type frame struct {
 	depth  int
 	loops  map[*Instr]int
 	allocas []*core.Alloc
+	curBlk *Block
+	curIdx int
 }
 
 // Event is an observable external call.
@@ -49,6 +51,8 @@ type GoPanic struct {
 type Bridge interface {
 	// Call returns (result, handled).
 	Call(x *Exec, name string, fn *Func, args []Value, retTy *Type) (Value, bool)
+	// NilFault raises the panic llgo's SIGSEGV handler would raise (does not return).
+	NilFault()
 }
 
 type Config struct {
@@ -79,6 +83,7 @@ type Exec struct {
 	hooks    core.AccessHooks
 	cur      *frame
 	UBEvents int
+	jmp      map[uint64]*jmpPoint
 }
 
 func NewExec(m *core.Machine, mods []*Module) *Exec {
@@ -99,6 +104,9 @@ func NewExec(m *core.Machine, mods []*Module) *Exec {
 	x.hooks.OnNil = func(addr *smt.Term) {
 		// an access inside the unmapped nil region traps (SIGSEGV), which llgo's
 		// signal handler turns into a Go panic
+		if x.Bridge != nil {
+			x.Bridge.NilFault()
+		}
 		panic(&GoPanic{Class: "nilptr", Msg: "nil dereference (fault in nil region)"})
 	}
 	return x
@@ -114,6 +122,7 @@ func (x *Exec) ResetPath() {
 	x.steps = 0
 	x.Trace = nil
 	x.cur = nil
+	x.jmp = map[uint64]*jmpPoint{}
 }
 
 func (x *Exec) unsupported(what string) {
@@ -360,11 +369,23 @@ func (x *Exec) call(caller *frame, f *Func, args []lval) lval {
 	defer func() { x.cur = saved }()
 	blk := f.Blocks[0]
 	prev := ""
+	start := 0
 	for {
-		next, ret, done := x.runBlock(fr, blk, prev)
+		next, ret, done, lj := x.runBlockProtected(fr, blk, prev, start)
+		if lj != nil {
+			// siglongjmp to a sigsetjmp of this frame: resume right after the
+			// call, which now yields the longjmp value (memory is unchanged,
+			// SSA values defined so far are still valid: -O0 semantics)
+			jp := x.jmp[lj.Buf]
+			x.cur = fr
+			blk, start = jp.blk, jp.idx+1
+			fr.env[jp.in] = clean(smt.Resize(lj.Val, jp.in.Ty.Bits, true))
+			continue
+		}
 		if done {
 			return ret
 		}
+		start = 0
 		prev = blk.Name
 		nb := f.BlockIx[next]
 		if nb == nil {
@@ -374,13 +395,40 @@ func (x *Exec) call(caller *frame, f *Func, args []lval) lval {
 	}
 }
 
-func (x *Exec) runBlock(fr *frame, b *Block, prev string) (next string, ret lval, done bool) {
+type jmpPoint struct {
+	fr  *frame
+	blk *Block
+	idx int
+	in  *Instr
+}
+
+func (x *Exec) runBlockProtected(fr *frame, b *Block, prev string, start int) (next string, ret lval, done bool, lj *core.LongJmp) {
+	defer func() {
+		if r := recover(); r != nil {
+			if l, ok := r.(*core.LongJmp); ok {
+				if jp := x.jmp[l.Buf]; jp != nil && jp.fr == fr {
+					lj = l
+					return
+				}
+			}
+			panic(r)
+		}
+	}()
+	next, ret, done = x.runBlock(fr, b, prev, start)
+	return
+}
+
+func (x *Exec) runBlock(fr *frame, b *Block, prev string, start int) (next string, ret lval, done bool) {
 	// phis read their inputs simultaneously
 	var phiVals []lval
 	var phis []*Instr
 	for _, in := range b.Instrs {
 		if in.Op != "phi" {
 			break
+		}
+		if start > 0 {
+			phis = append(phis, in)
+			continue
 		}
 		found := false
 		for k, bn := range in.Blocks {
@@ -395,10 +443,19 @@ func (x *Exec) runBlock(fr *frame, b *Block, prev string) (next string, ret lval
 		}
 		phis = append(phis, in)
 	}
-	for i, in := range phis {
-		fr.env[in] = phiVals[i]
+	if start == 0 {
+		for i, in := range phis {
+			fr.env[in] = phiVals[i]
+		}
 	}
-	for _, in := range b.Instrs[len(phis):] {
+	first := len(phis)
+	if start > first {
+		first = start
+	}
+	fr.curBlk = b
+	for idx := first; idx < len(b.Instrs); idx++ {
+		in := b.Instrs[idx]
+		fr.curIdx = idx
 		x.steps++
 		if x.steps > x.Cfg.MaxSteps {
 			x.M.Inconclusive("unwind.steps", "IR step limit")
